@@ -659,7 +659,8 @@ def dec_raw(s):
 # `$(cmd)` returns cmd's output "together with its status": the status of an assignment-only command is that of its
 # last substitution whatever `$?` was before. Several substitutions / pipelines run in one shell, statuses drawn from a
 # small set so that the previous `$?` often EQUALS the next status (a change-detecting implementation then fails).
-SEQ_PRELUDE = ("fl() { local v=$(exit $1); }\nfl2() { local v; v=$(exit $1); }\nfe() { export EV=$(exit $1); }\n"
+# `p` prints `$? PIPESTATUS` and RESTORES `$?`, so that the next command starts from the status of the previous one
+SEQ_PRELUDE = ("p() { local r=$? ps=\"${PIPESTATUS[*]}\"; echo \"$r $ps\"; return $r; }\n" "fl() { local v=$(exit $1); }\nfl2() { local v; v=$(exit $1); }\nfe() { export EV=$(exit $1); }\n"
                "fr() { return $1; }\n")
 
 
@@ -727,7 +728,7 @@ def gen_statseq(ctx):
 
 
 def statseq_script(stmts):
-    return SEQ_PRELUDE + "".join(t + "\necho \"$? ${PIPESTATUS[*]}\"\n" for t, _ in stmts)
+    return SEQ_PRELUDE + "".join(t + "\np\n" for t, _ in stmts)
 
 
 def eval_statseq(ctx):
